@@ -467,9 +467,6 @@ func onlyJsonUnset(tags map[string]bool) bool {
 		if strings.HasPrefix(t, "pinned:") && t != "pinned:json-unset" && t != "pinned:copy-unset" {
 			return false
 		}
-		if t == "alias_resize" {
-			return false
-		}
 	}
 	return true
 }
